@@ -5,6 +5,7 @@
 //!
 //! Ops: `open X iss mtu` · `listen X iss mtu` · `write X len seed` · `writehex X hex` ·
 //! `read X` · `tick X ms` · `emit X` · `deliver X i` · `inject X ctl seq ack wnd len seed` ·
+//! `injecthex X ctl seq ack wnd hex` ·
 //! `close X` · `abort X` · `drop X`.
 //!
 //! Native oracles (independent of the model, evaluated on the real code):
@@ -447,12 +448,19 @@ impl Exec {
                     }
                 }
             }
-            ["inject", _, ctl, seq, ack, wnd, len, seed] => {
-                let (Some(ctl), Some(seq), Some(ack), Some(wnd), Some(len), Some(seed)) =
-                    (num(ctl), num(seq), num(ack), num(wnd), num(len), num(seed))
-                else {
+            ["inject", _, ctl, seq, ack, wnd, rest @ ..] | ["injecthex", _, ctl, seq, ack, wnd, rest @ ..] => {
+                let (Some(ctl), Some(seq), Some(ack), Some(wnd)) = (num(ctl), num(seq), num(ack), num(wnd)) else {
                     return bad(self, out);
                 };
+                let payload: Vec<u8> = match (w[0], rest) {
+                    ("inject", [len, seed]) => {
+                        let (Some(len), Some(seed)) = (num(len), num(seed)) else { return bad(self, out) };
+                        gen_bytes(len as usize, seed)
+                    }
+                    ("injecthex", [h]) if *h == "-" || (h.len() % 2 == 0 && h.bytes().all(|c| c.is_ascii_digit() || (b'a'..=b'f').contains(&c))) => unhex(h),
+                    _ => return bad(self, out),
+                };
+                let len = payload.len() as u64;
                 let h = TcpHeader {
                     src_port: x.peer().port(),
                     dst_port: x.port(),
@@ -473,7 +481,7 @@ impl Exec {
                 if !noop {
                     self.tainted = true;
                 }
-                self.arrive(x, h, gen_bytes(len as usize, seed))
+                self.arrive(x, h, payload)
             }
             ["drop", _] => {
                 let sd = self.side_mut(x);
